@@ -98,6 +98,8 @@ def State.ofDump (d : Dump) : State := Id.run do
       | _ => pure ()
     | ["v", pk] =>
       match vw with
+      | [tb, acc, bits, ad, dr] => s := { s with validators := { pubkey := hexNat pk, totalBip := intD tb, accum := intD acc, absent := bits.toList.map (· == '1'), tmAddr := hexNat ad, toDrop := dr == "drop" } :: s.validators }
+      | [tb, acc, bits, ad] => s := { s with validators := { pubkey := hexNat pk, totalBip := intD tb, accum := intD acc, absent := bits.toList.map (· == '1'), tmAddr := hexNat ad } :: s.validators }
       | [tb, acc, bits] => s := { s with validators := { pubkey := hexNat pk, totalBip := intD tb, accum := intD acc, absent := bits.toList.map (· == '1') } :: s.validators }
       | [tb, acc] => s := { s with validators := { pubkey := hexNat pk, totalBip := intD tb, accum := intD acc, absent := [] } :: s.validators }
       | _ => pure ()
